@@ -62,9 +62,9 @@ def rdSrc : RdM (Source α) := do
   let d ← rdV (α := α); let a ← rdF
   return Source.new d a
 
-def shOptV (o : Option (V3 α)) : String :=
+def shOptVP (o : Option (V3 α)) : String :=
   match o with | none => "none" | some p => s!"some {shV p}"
-def shOptF (o : Option α) : String :=
+def shOptFP (o : Option α) : String :=
   match o with | none => "none" | some p => s!"some {shF p}"
 def shInfo (i : Info α) : String :=
   s!"{shV i.p} {shV i.normal} {i.side.code} {shV i.dpdu} {shV i.dpdv}"
@@ -117,7 +117,7 @@ def runOpPrim (op : String) : Option (RdM String) :=
       return shB ((Plane.new p n).testPoint q)
   | "pl.int" => some do
       let p ← rdV (α := α); let n ← rdV; let ray ← rdRay
-      return shOptF ((Plane.new p n).intersect ray)
+      return shOptFP ((Plane.new p n).intersect ray)
   -- triangle3d.rs ---------------------------------------------------------------------------------------
   | "tri.basic" => some do
       let t ← rdTri (α := α); let ray ← rdRay; let oe ← rdV; let de ← rdV
@@ -127,13 +127,13 @@ def runOpPrim (op : String) : Option (RdM String) :=
       return shOptInfo (t.intersectLocalRay ray oe de)
   | "tri.slocal" => some do
       let t ← rdTri (α := α); let ray ← rdRay; let oe ← rdV; let de ← rdV
-      return shOptV (t.simpleIntersectLocalRay ray oe de)
+      return shOptVP (t.simpleIntersectLocalRay ray oe de)
   | "tri.int" => some do
       let t ← rdTri (α := α); let ray ← rdRay
       return shOptInfo (t.intersect ray)
   | "tri.sint" => some do
       let t ← rdTri (α := α); let ray ← rdRay
-      return shOptV (t.simpleIntersect ray)
+      return shOptVP (t.simpleIntersect ray)
   | "tri.bounds" => some do
       let t ← rdTri (α := α)
       return s!"{shBox t.bounds} {shBox t.worldBounds}"
@@ -152,13 +152,13 @@ def runOpPrim (op : String) : Option (RdM String) :=
       return onRes d fun d => shOptInfo (d.intersectLocalRay ray oe de)
   | "dk.slocal" => some do
       let d ← rdDisk (α := α); let ray ← rdRay; let oe ← rdV; let de ← rdV
-      return onRes d fun d => shOptV (d.simpleIntersectLocalRay ray oe de)
+      return onRes d fun d => shOptVP (d.simpleIntersectLocalRay ray oe de)
   | "dk.int" => some do
       let d ← rdDisk (α := α); let ray ← rdRay
       return onRes d fun d => shOptInfo (d.intersect ray)
   | "dk.sint" => some do
       let d ← rdDisk (α := α); let ray ← rdRay
-      return onRes d fun d => shOptV (d.simpleIntersect ray)
+      return onRes d fun d => shOptVP (d.simpleIntersect ray)
   -- sphere3d.rs -----------------------------------------------------------------------------------------------
   | "sp.ctor" => some do
       let s ← rdSphere (α := α)
@@ -175,13 +175,13 @@ def runOpPrim (op : String) : Option (RdM String) :=
       return onRes s fun s => shOptInfo (s.intersectLocalRay ray oe de)
   | "sp.slocal" => some do
       let s ← rdSphere (α := α); let ray ← rdRay; let oe ← rdV; let de ← rdV
-      return onRes s fun s => shOptV (s.simpleIntersectLocalRay ray oe de)
+      return onRes s fun s => shOptVP (s.simpleIntersectLocalRay ray oe de)
   | "sp.int" => some do
       let s ← rdSphere (α := α); let ray ← rdRay
       return onRes s fun s => shOptInfo (s.intersect ray)
   | "sp.sint" => some do
       let s ← rdSphere (α := α); let ray ← rdRay
-      return onRes s fun s => shOptV (s.simpleIntersect ray)
+      return onRes s fun s => shOptVP (s.simpleIntersect ray)
   -- cylinder3d.rs ---------------------------------------------------------------------------------------------
   | "cy.ctor" => some do
       let s ← rdCyl (α := α)
@@ -200,13 +200,13 @@ def runOpPrim (op : String) : Option (RdM String) :=
       return onRes s fun s => shOptInfo (s.intersectLocalRay ray oe de)
   | "cy.slocal" => some do
       let s ← rdCyl (α := α); let ray ← rdRay; let oe ← rdV; let de ← rdV
-      return onRes s fun s => shOptV (s.simpleIntersectLocalRay ray oe de)
+      return onRes s fun s => shOptVP (s.simpleIntersectLocalRay ray oe de)
   | "cy.int" => some do
       let s ← rdCyl (α := α); let ray ← rdRay
       return onRes s fun s => shOptInfo (s.intersect ray)
   | "cy.sint" => some do
       let s ← rdCyl (α := α); let ray ← rdRay
-      return onRes s fun s => shOptV (s.simpleIntersect ray)
+      return onRes s fun s => shOptVP (s.simpleIntersect ray)
   -- distant_source3d.rs -----------------------------------------------------------------------------------------
   | "ds.new" => some do
       let s ← rdSrc (α := α)
@@ -219,24 +219,24 @@ def runOpPrim (op : String) : Option (RdM String) :=
       return onRes (s.intersectLocalRay ray oe de) shOptInfo
   | "ds.slocal" => some do
       let s ← rdSrc (α := α); let ray ← rdRay; let oe ← rdV; let de ← rdV
-      return shOptV (s.simpleIntersectLocalRay ray oe de)
+      return shOptVP (s.simpleIntersectLocalRay ray oe de)
   | "ds.int" => some do
       let s ← rdSrc (α := α); let ray ← rdRay
       return onRes (s.intersect ray) shOptInfo
   | "ds.sint" => some do
       let s ← rdSrc (α := α); let ray ← rdRay
-      return shOptV (s.simpleIntersect ray)
+      return shOptVP (s.simpleIntersect ray)
   -- bounds + hit (c15b) -------------------------------------------------------------------------------------------
   | "bh.tri" => some do
       let t ← rdChain (α := α); let tv ← rdTri; let ray ← rdRay
       let tw : TriV α := ⟨t.transformPt tv.a, t.transformPt tv.b, t.transformPt tv.c⟩
-      return s!"{shV tw.a} {shV tw.b} {shV tw.c} {shBox tw.bounds} {shBox tw.worldBounds} {shOptV (tw.simpleIntersect ray)}"
+      return s!"{shV tw.a} {shV tw.b} {shV tw.c} {shBox tw.bounds} {shBox tw.worldBounds} {shOptVP (tw.simpleIntersect ray)}"
   | "bh.sp" => some do
       let s ← rdSphere (α := α); let ray ← rdRay
-      return onRes s fun s => s!"{shBox s.bounds} {shBox s.worldBounds} {shOptV (s.simpleIntersect ray)}"
+      return onRes s fun s => s!"{shBox s.bounds} {shBox s.worldBounds} {shOptVP (s.simpleIntersect ray)}"
   | "bh.cy" => some do
       let s ← rdCyl (α := α); let ray ← rdRay
-      return onRes s fun s => s!"{shBox s.bounds} {shBox s.worldBounds} {shOptV (s.simpleIntersect ray)}"
+      return onRes s fun s => s!"{shBox s.bounds} {shBox s.worldBounds} {shOptVP (s.simpleIntersect ray)}"
   | _ => none
 
 end
